@@ -476,7 +476,7 @@ def finish(res, max_replays_per_kind=3):
 
 
 COMMON_ASSUMPTIONS = [
-    "rp2.* modules are loaded from /repo/src with two AST rewrites only (decimal -> symbolic substrate, f-strings -> structured strings)",
+    "rp2.* modules are loaded from /repo/src with three mechanical AST rewrites only (decimal -> symbolic substrate, f-strings -> structured strings, int(x) -> helper that keeps a symbolic number symbolic)",
     "Configuration.type_check_timestamp_from_string is stubbed for symbolic timestamps (dateutil outside the encoding)",
     "logging disabled; cwd is a scratch directory; the warning-only consistency checks of the In/OutTransaction constructors (is_equal_within_precision deciding whether to log) are answered 'equal' on symbolic operands",
     "Python's decimal add/sub/mul are exact when the result has <= 31 digits (value ranges keep compared products inside), division/quantize correctly rounded",
